@@ -23,7 +23,7 @@ Record wa : Type := mkwa {
   a_chain : option contk;                (* the completion the write in flight will (eventually) run *)
   a_flushing : bool;
   a_waiters : list contk;
-  a_rd : option Z;                       (* AsyncNextMessage in flight: its callback id *)
+  a_rd : option (Z * Z);                 (* AsyncNextMessage in flight: its callback id and the length of the caller's buffer *)
   a_rwait : bool;                        (* adapter read reactor registered with the poller *)
   a_inq : list (Z * list Z);             (* frames the peer has sent and the client has not read: (opcode, payload) *)
   a_src : list (Z * list Z);             (* frames read into src and not yet decoded *)
@@ -71,9 +71,14 @@ Definition set_src (s : wa) (l : list (Z * list Z)) : wa :=
 Definition set_rwait (s : wa) (b : bool) : wa :=
   mkwa (a_state s) (a_next s) (a_serial s) (a_pending s) (a_dst s) (a_wr s) (a_chain s) (a_flushing s) (a_waiters s) (a_rd s) b (a_inq s)
     (a_src s) (a_wire s) (a_log s) (a_done s) (a_all s) (a_fstart s) (a_fdone s) (a_fuel_out s).
-Definition set_rd (s : wa) (r : option Z) : wa :=
+Definition set_rd (s : wa) (r : option (Z * Z)) : wa :=
   mkwa (a_state s) (a_next s) (a_serial s) (a_pending s) (a_dst s) (a_wr s) (a_chain s) (a_flushing s) (a_waiters s) r (a_rwait s) (a_inq s)
     (a_src s) (a_wire s) (a_log s) (a_done s) (a_all s) (a_fstart s) (a_fdone s) (a_fuel_out s).
+Definition set_closed (s : wa) : wa :=                       (* state := closed by us *)
+  mkwa 2 (a_next s) (a_serial s) (a_pending s) (a_dst s) (a_wr s) (a_chain s) (a_flushing s) (a_waiters s) (a_rd s) (a_rwait s) (a_inq s)
+    (a_src s) (a_wire s) (a_log s) (a_done s) (a_all s) (a_fstart s) (a_fdone s) (a_fuel_out s).
+(* the Close frame asyncNextMessage sends for a message that does not fit: 1001 "payload too big" *)
+Definition too_big_close : list Z := [3; 233; 112; 97; 121; 108; 111; 97; 100; 32; 116; 111; 111; 32; 98; 105; 103].
 Definition add_fstart (s : wa) (k : contk) : wa :=
   mkwa (a_state s) (a_next s) (a_serial s) (a_pending s) (a_dst s) (a_wr s) (a_chain s) (a_flushing s) (a_waiters s) (a_rd s) (a_rwait s) (a_inq s)
     (a_src s) (a_wire s) (a_log s) (a_done s) (a_all s) (a_fstart s ++ [k]) (a_fdone s) (a_fuel_out s).
@@ -104,7 +109,15 @@ Fixpoint handle_read (fuel : nat) (s : wa) : wa :=          (* asyncNextFrame: d
             (* Ping: queue the Pong (only while the stream is active), read on *)
             flush f (if a_state s1 =? 1 then queue_frame s1 (enc_frame 10 payload) else s1) KRead
           else match a_rd s1 with
-               | Some rid => upd_log (set_rd s1 None) (rid, opc, payload)
+               | Some (rid, blen) =>
+                   if zlen payload >? blen then
+                     (* the message does not fit the caller's buffer: AsyncClose(going away, "payload too big") with a
+                        callback that does nothing (id -1: not logged), then the read completes with ErrMessageTooBig *)
+                     let s2 := set_rd s1 None in
+                     let s3 := if a_state s2 =? 1 then flush f (queue_frame (set_closed s2) (enc_frame 8 too_big_close)) (KApp (-1))
+                               else s2 in
+                     upd_log s3 (rid, -9, [])
+                   else upd_log (set_rd s1 None) (rid, opc, payload)
                | None => s1
                end
       end
@@ -116,7 +129,7 @@ with run_cont (fuel : nat) (s : wa) (k : contk) : wa :=
       let s := add_fdone s k in
       match k with
       | KApp id =>
-          let s1 := upd_log s (id, 0, []) in
+          let s1 := if id <? 0 then s else upd_log s (id, 0, []) in      (* negative ids: the library's own empty callbacks *)
           match nlookup id (a_next s1) with
           | Some (id2, payload) =>
               (* the callback writes again; AsyncWrite on a stream that is no longer active is refused on the spot *)
@@ -159,7 +172,7 @@ Definition write_complete (s : wa) : wa :=
   end.
 
 Inductive waop : Type :=
-| WaRead (rid : Z)
+| WaRead (rid : Z) (blen : Z)
 | WaWrite (wid : Z) (payload : list Z)
 | WaPeer (opcode : Z) (payload : list Z)
 | WaClose (cid : Z)
@@ -168,17 +181,15 @@ Inductive waop : Type :=
 
 Definition wastep (s : wa) (o : waop) : wa :=
   match o with
-  | WaRead rid =>
-      flush wa_fuel (set_rd s (Some rid)) KRead
+  | WaRead rid blen =>
+      flush wa_fuel (set_rd s (Some (rid, blen))) KRead
   | WaWrite wid payload =>
       if a_state s =? 1 then flush wa_fuel (queue_frame s (enc_frame 2 payload)) (KApp wid)
       else upd_log s (wid, -2, [])                                  (* ErrCancelled *)
   | WaClose cid =>
       (* AsyncClose: the state changes BEFORE the Close frame is queued and flushed *)
       if a_state s =? 1 then
-        flush wa_fuel (queue_frame (mkwa 2 (a_next s) (a_serial s) (a_pending s) (a_dst s) (a_wr s) (a_chain s) (a_flushing s) (a_waiters s) (a_rd s)
-                                      (a_rwait s) (a_inq s) (a_src s) (a_wire s) (a_log s) (a_done s) (a_all s) (a_fstart s) (a_fdone s) (a_fuel_out s))
-                         (enc_frame 8 [3; 232])) (KApp cid)
+        flush wa_fuel (queue_frame (set_closed s) (enc_frame 8 [3; 232])) (KApp cid)
       else upd_log s (cid, -2, [])
   | WaPeer opc payload =>
       mkwa (a_state s) (a_next s) (a_serial s) (a_pending s) (a_dst s) (a_wr s) (a_chain s) (a_flushing s) (a_waiters s) (a_rd s) (a_rwait s) (a_inq s ++ [(opc, payload)])
